@@ -39,6 +39,10 @@ BUDGETS = {"quick": (60000, 90), "thorough": (3000000, 285)}
 def gen(seed, tier="quick"):
     scn = G.gen_retry(seed, KNOBS)
     r = random.Random(seed ^ 0xC14)
+    if scn["place"]["handler"] != "none" and r.random() < 0.35:
+        # a slow sleep handler: time passes between the retry decision (and its `retry` event) and the sleep
+        for c in scn["calls"]:
+            c["handler_dur"] = [r.choice([0, 1000, 250_000, 500_000, 2_000_000]) for _ in range(r.randint(1, 3))]
     if scn["entry"] in ("Policy", "Policy.context") and r.random() < 0.7:
         scn["cfg"]["breaker"] = {"kind": "real", "failure_threshold": r.choice([1, 1, 2, 3]), "window_us": 60_000_000,
                                  "recovery_us": r.choice([1_000_000, 30_000_000]),
@@ -53,6 +57,18 @@ def gen(seed, tier="quick"):
                 if scn["place"]["handler"] == "none":
                     c["decisions"] = []
             scn["calls"].extend(extra)
+        if scn["mode"] == "async" and len(scn["calls"]) > 1 and r.random() < 0.5:
+            # overlapping calls on one breaker: rejections while another call's half-open probe is still in flight
+            scn["concurrent"] = True
+            for c in scn["calls"]:
+                c.pop("before", None)
+                c["start_us"] = r.choice([0, 0, 1000, 250_000, 1_000_000])
+                for st in c["attempts"]:
+                    if st.get("dur", 0) == 0:
+                        st["dur"] = r.choice([0, 1000, 250_000, 1_000_000])
+            if r.random() < 0.6:
+                br = scn["cfg"]["breaker"]
+                scn["pre"] = (scn.get("pre") or []) + [["fail", "TRANSIENT"]] * br["failure_threshold"] + [["adv", br["recovery_us"]]]
     return scn
 
 
